@@ -80,6 +80,9 @@ import GqlModel.Validate.Spec.Links
   a schema that `load` returned: operation kinds, distinct fragment positions (parser), closedness and
   the `String` type (loader) are discharged; what is left is validity, `Spec.wellParented`, the
   prelude being part of the schema document and the recorded non-object-root finding.
+  `C09_wellParented_of_valid` then derives `Spec.wellParented` from validity, and
+  `C09_links_correct_sources` is the statement over schema and query SOURCE TEXTS with nothing left but
+  the prelude and the non-object-root finding.
 -/
 open Gql Gql.Validate Gql.Validate.Rules
 
@@ -670,6 +673,45 @@ theorem C09_expected_links_met_parsed {L : Nat} {inp : Bytes} {d : QueryDoc} (hp
           ∃ got, ("var", got) ∈ fs ∧ got ∈ cs) :=
   C09_expected_links_met s d evs hw hwp (Gql.EndToEnd.parsed_kinds hp) (Gql.EndToEnd.parsed_fragPosDistinct hp)
 
+
+/-- **every document that validates is well parented** (on a schema with the loader's invariants): the
+    hypothesis `hwp` of the C09 theorems follows from validity — KnownRootType, KnownTypeNames,
+    FragmentsOnCompositeTypes, FieldsOnCorrectType and ScalarLeafs report nothing
+    (`C08_wellParented_of_rules`, proof in `GqlProofs/EndToEnd/WellParented.lean`) -/
+theorem C09_wellParented_of_valid {s : Schema} (W : Gql.EndToEnd.WPSchema s) (hE : s.type? [] = none) (d : QueryDoc)
+    (hvalid : validate defaultRules s d = .ok []) : Spec.wellParented s d = true :=
+  C08_wellParented_of_rules W hE d
+    (C09_default_rule_reports_nothing s d hvalid _ (List.mem_filterMap.2 ⟨"KnownRootType", by decide, rfl⟩))
+    (C09_default_rule_reports_nothing s d hvalid _ (List.mem_filterMap.2 ⟨"KnownTypeNames", by decide, rfl⟩))
+    (C09_default_rule_reports_nothing s d hvalid _ (List.mem_filterMap.2 ⟨"FragmentsOnCompositeTypes", by decide, rfl⟩))
+    (C09_default_rule_reports_nothing s d hvalid _ (List.mem_filterMap.2 ⟨"FieldsOnCorrectType", by decide, rfl⟩))
+    (C09_default_rule_reports_nothing s d hvalid _ (List.mem_filterMap.2 ⟨"ScalarLeafs", by decide, rfl⟩))
+
+/-- **C09 END TO END over source texts, `Spec.wellParented` discharged.**  The schema sources are
+    well-formed UTF-8, `ParseSchemas` merges them into `sd`, `sd` loads to `s`; the query source `inp`
+    parses (any token limit) to `d`; `d` validates against `s`.  Then every demanded link is met, every
+    variable use shows an admissible candidate, every demanded link is present.  Hypotheses left: the
+    prelude is among the sources (`PreludeDeclared sd`) and the recorded non-object-root finding
+    (`rootTypesAreObjects s`). -/
+theorem C09_links_correct_sources {Ls : Nat} {srcs : List (Bool × Bytes)} {sd : SchemaDoc} {s : Schema}
+    (hsrc : ∀ src ∈ srcs, Lexer.Utf8.valid src.2) (hps : Parser.parseSchemas Ls srcs = .ok sd)
+    (hl : Gql.Load.load sd = .ok s) (hprel : PreludeDeclared sd) (hroots : Gql.Spec.rootTypesAreObjects s = true)
+    {L : Nat} {inp : Bytes} {d : QueryDoc} (hp : Parser.parseQuery L inp = .ok d)
+    (evs : List Event) (hw : walkDoc s.view d = some evs) (hvalid : validate defaultRules s d = .ok []) :
+    Spec.expectedLinks s d = (docDemands s d).map (Demand.render s d) ∧
+    (∀ dm ∈ docDemands s d, dm.Met s d evs) ∧
+    (∀ dm ∈ docDemands s d, ∀ cands o raw ch p, dm = .value cands o → o.v = .mk .variable raw ch p →
+      cands raw = [] ∨
+      ∃ e ∈ evs, (∃ exp dfn, e.p = .value o.v exp dfn ∧ (o.typed = true → exp = o.exp ∧ dfn = o.dfn)) ∧
+        varText (e.links.varDef p.start) ∈ cands raw) ∧
+    (∀ dm ∈ docDemands s d, dm.Present s d) :=
+  have T := Gql.EndToEnd.parseSchemas_treeHyps hsrc hps
+  C09_links_correct_parsed_loaded hl hprel hroots hp evs hw hvalid
+    (C09_wellParented_of_valid (Gql.EndToEnd.loaded_wpSchema hl hprel T.unions hroots)
+      (Gql.EndToEnd.loaded_noEmptyTypeName hl T.names) d hvalid)
+
+#print axioms C09_wellParented_of_valid
+#print axioms C09_links_correct_sources
 #print axioms C09_known_root_type_of_valid
 #print axioms C09_known_type_names_of_valid
 #print axioms C09_links_correct_of_valid
